@@ -44,6 +44,8 @@ type Script struct {
 	Yields  int    `json:"yields,omitempty"`
 	Version string `json:"version"` // 2025-03-26 | 2025-06-18 (no priming) | 2025-11-25 (priming)
 	Steps   []Step `json:"steps"`
+	// PurgeDuringLastReplay: while the very last resume of the case is being replayed, the store is purged.
+	PurgeDuringLastReplay bool `json:"purge_during_last_replay,omitempty"`
 }
 
 func genScript(rt *rapid.T, race bool) Script {
@@ -51,6 +53,7 @@ func genScript(rt *rapid.T, race bool) Script {
 	if race {
 		s.Yields = rapid.SampledFrom([]int{0, 2000, 2000, 5000}).Draw(rt, "yields")
 	}
+	s.PurgeDuringLastReplay = rapid.IntRange(0, 2).Draw(rt, "purge_last") == 0
 	n := rapid.IntRange(2, 30).Draw(rt, "n")
 	posts := 0
 	for i := 0; i < n; i++ {
@@ -90,6 +93,7 @@ type recStore struct {
 	inner      *mcp.MemoryEventStore
 	yields     int
 	afterCalls atomic.Int64
+	purgeNext  atomic.Bool // the next After sees the store purged while its result is being consumed
 	mu         sync.Mutex
 	logs       map[string][][]byte // streamID -> payloads in append order
 }
@@ -119,7 +123,24 @@ func (r *recStore) Append(ctx context.Context, sess, stream string, data []byte)
 }
 func (r *recStore) After(ctx context.Context, sess, stream string, index int) iter.Seq2[[]byte, error] {
 	r.afterCalls.Add(1)
-	return r.inner.After(ctx, sess, stream, index)
+	seq := r.inner.After(ctx, sess, stream, index)
+	if !r.purgeNext.CompareAndSwap(true, false) {
+		return seq
+	}
+	// While this replay is being consumed the store shrinks to nothing (as when other sessions push it over
+	// its byte budget): what After handed out must be a snapshot.
+	return func(yield func([]byte, error) bool) {
+		n := 0
+		for d, err := range seq {
+			if n == 1 {
+				r.inner.SetMaxBytes(1)
+			}
+			n++
+			if !yield(d, err) {
+				return
+			}
+		}
+	}
 }
 func (r *recStore) SessionClosed(ctx context.Context, sess string) error {
 	return r.inner.SessionClosed(ctx, sess)
@@ -610,6 +631,12 @@ func runInBubble(s Script) (res vt.Result) {
 	}
 	synctest.Wait()
 	check(len(s.Steps))
+	var lastKnown *streamRec
+	for _, sr := range streams {
+		if sr.known {
+			lastKnown = sr
+		}
+	}
 	for _, sr := range streams {
 		if len(res.Violations) > 0 {
 			break
@@ -624,6 +651,10 @@ func runInBubble(s Script) (res vt.Result) {
 			continue
 		}
 		from := sr.seenIdx[0]
+		if s.PurgeDuringLastReplay && sr == lastKnown {
+			store.purgeNext.Store(true)
+			res.Class("store_purged_during_replay")
+		}
 		ex := do("GET", "", map[string]string{"Last-Event-ID": fmt.Sprintf("%s_%d", sr.sid, from)})
 		if ex == nil || ex.Status() != 200 {
 			st := 0
